@@ -11,6 +11,30 @@ pub struct MinStats {
 }
 
 pub fn minimize(script: &Script, budget: usize, fails: &mut dyn FnMut(&Script) -> bool) -> (Script, MinStats) {
+    let (first, st1) = minimize_once(script, budget, fails);
+    // try a smaller compiled capacity, smallest first, then shrink again
+    let caps: &[usize] = match first.scenario {
+        crate::script::Scenario::Deque => &crate::gen::DEQUE_NS,
+        crate::script::Scenario::Io => &[0, 1, 2, 3, 4, 5, 8, 16, 64],
+        crate::script::Scenario::Zst => &[],
+    };
+    let mut execs = st1.execs;
+    for n in caps.iter().copied().filter(|n| *n < first.n) {
+        if execs >= budget {
+            break;
+        }
+        let mut cand = first.clone();
+        cand.n = n;
+        execs += 1;
+        if fails(&cand) {
+            let (second, st2) = minimize_once(&cand, budget.saturating_sub(execs), fails);
+            return (second, MinStats { execs: execs + st2.execs, from_steps: st1.from_steps, to_steps: st2.to_steps });
+        }
+    }
+    (first, MinStats { execs, from_steps: st1.from_steps, to_steps: st1.to_steps })
+}
+
+fn minimize_once(script: &Script, budget: usize, fails: &mut dyn FnMut(&Script) -> bool) -> (Script, MinStats) {
     let mut cur = script.clone();
     let mut execs = 0usize;
     let from_steps = cur.steps.len();
